@@ -122,6 +122,8 @@ PROPS["C05"]["theorems"] = PROPS["C05"]["theorems"] + ["Toxi.Api." + t for t in 
     "C05_reachable_ports", "pinv_step", "ports_nodup", "startProxy_spec", "pinv_replace", "pinv_append", "fits_updateProxy"]]
 PROPS["C05"]["assumptions"] = PROPS["C05"]["assumptions"] + [
     "port exclusivity (C05_reachable_ports) is under hypothesis boundOK on the address table measured from the real net.Listen / ResolveTCPAddr: the address a listener reports is a spelling of the table with the same port; the model driver evaluates boundOK on the measured table in every E4 session (a false value is reported as a broken obligation)"]
+PROPS["C05"]["lean_modules"] = PROPS["C05"]["lean_modules"] + ["Toxi.Proofs.Lemmas.Unmentioned"]
+PROPS["C05"]["theorems"] = PROPS["C05"]["theorems"] + ["Toxi.Api." + t for t in ["C05_update_keeps_enabled", "C05_update_reflected"]]
 PROPS["C06"] = _api("C06", ["C06_rejected_unchanged", "C06_populate_validates_first", "C06_exception_update", "C06_legacy_leaks",
                             "dispatch_unchanged", "updateToxic_fixed_err", "C06_rejected_unchanged_reachable", "inv_step"],
                     ["treatment of traffic: the registry state compared contains every toxic's attributes and toxicity; that links run exactly the listed configuration is C04"])
@@ -131,6 +133,10 @@ PROPS["C06"]["engines"] = PROPS["C06"]["engines"] + [{"engine": "e7", "args": []
 PROPS["C17"] = _api("C17", ["C17_same_untouched", "C17_idempotent", "C17_differs_replaces", "C17_spelling", "populateLoop_all_match"],
                     ["'every spelling': theorem C17_spelling is under hypothesis spellingOK on the relation measured from the real Proxy.Differs; the model driver evaluates spellingOK on the measured table in every run (a false value is reported as a broken obligation)",
                      "live connections surviving a matching populate / dropped by a replacing one: registry-level here (the proxy object is untouched / stopped); socket level belongs to C03"])
+
+PROPS["C17"]["lean_modules"] = PROPS["C17"]["lean_modules"] + ["Toxi.Proofs.Lemmas.Reset"]
+PROPS["C17"]["theorems"] = PROPS["C17"]["theorems"] + ["Toxi.Api." + t for t in [
+    "C17_reset_clean", "C17_reset_refused_keeps", "C17_reset_idempotent", "rinv_step", "rinv_fold"]]
 
 
 PROPS["C19"] = {
@@ -276,6 +282,14 @@ PROPS["C20"]["theorems"] = PROPS["C20"]["theorems"] + ["Toxi.Link.C20_graceful_e
 # C12 at link level: a slicer updated on live connections (the real UpdateToxicJson copies the toxic object)
 PROPS["C12"]["engines"] = PROPS["C12"]["engines"] + [{"engine": "e3", "gotest": True, "args": ["-props", "C12", "-mode", "preserving"], "tag": "C12link"}]
 PROPS["C12"]["needs_gotest"] = True
+# C06 at the links: a rejected toxic update must not change how connections are treated (E3's
+# updbad histories); C15 at the links: a link whose sender has ended and whose receiver accepts ends
+PROPS["C06"]["engines"] = PROPS["C06"]["engines"] + [{"engine": "e3", "gotest": True, "args": ["-props", "C06", "-mode", "all"], "tag": "C06link"}]
+PROPS["C06"]["needs_gotest"] = True
+PROPS["C15"]["engines"] = PROPS["C15"]["engines"] + [{"engine": "e3", "gotest": True, "args": ["-props", "C15", "-mode", "all"], "tag": "C15link"}]
+PROPS["C15"]["needs_gotest"] = True
+# C03 at the registry: Differs as a relation on address spellings decides whether an update re-binds (E4)
+PROPS["C03"]["engines"] = PROPS["C03"]["engines"] + [{"engine": "e4", "args": ["-props", "C03"], "tag": "C03api"}]
 # C10 / C11 / C13 at the level of whole connections (Proofs/Lemmas/Blackhole.lean, Limit.lean)
 PROPS["C10"]["lean_modules"] = PROPS["C10"]["lean_modules"] + ["Toxi.Proofs.Lemmas.Blackhole"]
 PROPS["C10"]["theorems"] = PROPS["C10"]["theorems"] + ["Toxi.Link.C10_link_blackhole", "Toxi.Link.link_blackhole", "Toxi.Link.d_anymove",
@@ -313,3 +327,24 @@ for _p, _ts in _TIES.items():
         PROPS[_p]["theorems"] = list(PROPS[_p]["theorems"]) + ["Toxi.Ties." + t for t in _ts]
 _c15_extra()
 _c16_extra()
+
+# C16, deadlock clause: the block model's locks (Progress.lean) and the implementation's lock order
+# (LockOrder.lean over the regenerated Generated.lockOrder)
+PROPS["C16"]["lean_modules"] = PROPS["C16"]["lean_modules"] + ["Toxi.Proofs.Lemmas.Progress", "Toxi.Proofs.Lemmas.LockOrder"]
+PROPS["C16"]["theorems"] = PROPS["C16"]["theorems"] + ["Toxi.Conc." + t for t in [
+    "advance_lockstep", "lockinv_set", "lockinv_sched", "C16_no_deadlock", "C16_all_finish", "C16_never_stuck"]] + [
+    "Toxi.LockOrder.ranked_no_deadlock", "Toxi.LockOrder.classes_no_deadlock", "Toxi.LockOrder.C16_lock_order_no_deadlock",
+    "Toxi.Ties.tie_lock_order"]
+PROPS["C16"]["assumptions"] = PROPS["C16"]["assumptions"] + [
+    "lock order: tools/factgen's relation Generated.lockOrder (typed AST of package toxiproxy: a Lock/RLock, or proxy.tomb.Wait(), reached - directly or through statically resolved calls inside the package, goroutines joined by a WaitGroup included - while an earlier Lock of the same function is not yet released) over-approximates the nesting at run time; interface calls into package toxics take no lock of package toxiproxy; waiting on channels (links' hand-over, Proxy.started) is outside the lock-order theorem and is exercised by E3/E7"]
+# C15 at the registry: refused starts leave no goroutine of the proxy's life cycle (E4)
+PROPS["C15"]["engines"] = PROPS["C15"]["engines"] + [{"engine": "e4", "args": ["-props", "C15"], "tag": "C15api"}]
+
+# the start hand-shake (Start.lean): a refused start leaves no goroutine (C15), an accepted one serves (C03)
+PROPS["C15"]["lean_modules"] = PROPS["C15"]["lean_modules"] + ["Toxi.Proofs.Lemmas.Start"]
+PROPS["C15"]["theorems"] = PROPS["C15"]["theorems"] + ["Toxi.Start.C15_refused_start_leaves_nothing", "Toxi.Start.inv_step", "Toxi.Ties.tie_server_start"]
+PROPS["C03"]["lean_modules"] = PROPS["C03"]["lean_modules"] + ["Toxi.Proofs.Lemmas.Start"]
+PROPS["C03"]["theorems"] = PROPS["C03"]["theorems"] + ["Toxi.Start.C03_started_serves", "Toxi.Start.start_progress", "Toxi.Ties.tie_server_start"]
+# reset at the links (ResetLink.lean)
+PROPS["C17"]["lean_modules"] = PROPS["C17"]["lean_modules"] + ["Toxi.Proofs.Lemmas.ResetLink"]
+PROPS["C17"]["theorems"] = PROPS["C17"]["theorems"] + ["Toxi.Link.C17_reset_link"]
